@@ -32,14 +32,14 @@ TRUSTED = ["CPython ast", "indilint abstract interpreter"]
 
 def _b64_model(it, callee, args, kw):
     """base64.<std/urlsafe>_b64{en,de}code on CONSTANT arguments, decided by the standard library (no repository code)."""
-    if isinstance(callee, Foreign) and callee.dotted.startswith("base64.") and args and isinstance(args[0], Const) and isinstance(args[0].v, (bytes, str)) and not kw and len(args) == 1:
+    if isinstance(callee, Foreign) and callee.dotted.startswith("base64.") and args and all(isinstance(a, Const) for a in list(args) + list(kw.values())) and isinstance(args[0].v, (bytes, str)):
         import base64 as _b
         import binascii
         fn = getattr(_b, callee.dotted.split(".", 1)[1], None)
         if fn is None:
             return None
         try:
-            return Const(fn(args[0].v))
+            return Const(fn(*[a.v for a in args], **{k: v.v for k, v in kw.items()}))
         except (binascii.Error, ValueError, TypeError):
             from ..absint import _Raise
             raise _Raise(Term("exc", "Error"), getattr(it, "cur_stmt", None))
@@ -101,8 +101,19 @@ def rule_value(ctx):
             elif second is not None and not same(it_.second, want(second, ".fits")):
                 ctx.violated("C08.VALUE", vb.short, f"after its views were read and the payload of the same BLOB object was replaced by {second!r}, it shows (size, base64, format, bytes) = {tuple(show(x)[:40] for x in it_.second)}, expected {want(second, '.fits')}: a stale derived view travels with the new payload's size", ci=vb, text=f"views:stale:{'same-length' if len(second) == len(payload) else 'other-length'}", witness=f"{payload!r} then {second!r}")
                 bad = True
+    def spellings(payload):
+        """Legal spellings of one payload: on one line, wrapped (the reference server breaks lines), wrapped and indented
+        (pretty-printed XML), CRLF; None / '' for the empty payload."""
+        t = _b.b64encode(payload).decode("ascii")
+        out = [t]
+        if len(t) > 8:
+            out += ["\n".join(t[i:i + 8] for i in range(0, len(t), 8)), "\n" + "\n".join("    " + t[i:i + 8] for i in range(0, len(t), 8)) + "\n  ", "\r\n".join(t[i:i + 12] for i in range(0, len(t), 12)), t[:4] + "\t" + t[4:]]
+        if not payload:
+            out += [None, "\n  "]
+        return out
+
     for payload in _PAYLOADS:
-        for text in (_b.b64encode(payload).decode("ascii"),) + ((None,) if not payload else ()):
+        for text in spellings(payload):
             n += 1
 
             def run2(it: Interp, text=text):
@@ -114,7 +125,10 @@ def rule_value(ctx):
 
             paths = explore(p, run2, {"inline": lambda fi, node: fi.cls is vb, "instantiate": lambda ci: ci is vb, "foreign_model": _b64_model})
             ctx.paths_enumerated += len(paths)
-            if len(paths) != 1 or paths[0].outcome != "return":
+            if len(paths) == 1 and paths[0].outcome == "raise":
+                ctx.violated("C08.VALUE", fb.short, f"from_base64({text!r}, '.raw') raises {show(paths[0].value)[:40] if paths[0].value is not None else ''}: a legal spelling of the payload {payload!r} (base64 may be wrapped and indented) is rejected", fi=fb, text="from_base64:raises", witness=repr(text))
+                bad = True
+            elif len(paths) != 1 or paths[0].outcome != "return":
                 ctx.undecided("C08.VALUE", fb.short, f"from_base64({text!r}) not decided by constant evaluation ({len(paths)} paths)", fi=fb)
                 bad = True
             elif not same(paths[0].interp.first, want(payload, ".raw")):
